@@ -880,7 +880,7 @@ impl Case {
     /// Total: every byte string is a case; the sequence ends where the bytes do.
     pub fn from_bytes(data: &[u8]) -> Case {
         let mut c = Cursor::new(data);
-        let hasher = crate::hashers::ALL_HKINDS[(c.u8().unwrap_or(0) % 8) as usize];
+        let hasher = crate::hashers::ALL_HKINDS[(c.u8().unwrap_or(0) % 9) as usize];
         let capacity = CAPACITIES[(c.u8().unwrap_or(0) % 14) as usize];
         let limit = dec_lim(&mut c).unwrap_or(LimSel::Ents(4, 0));
         let limit = match limit {
